@@ -285,13 +285,26 @@ pub fn gen_case(verif_seed: u64, idx: u64) -> WireReplay {
     WireReplay { property: "C20".into(), engine: "E5-wiresim".into(), seed, events: ops, violation: None }
 }
 
-fn encode(m: &Msg) -> Vec<u8> {
+/// The framed bytes of a message, or None when its encoding exceeds the 16 MiB cap (the sender
+/// refuses such a message; the round-trip oracle checks that refusal, the other operations skip it).
+fn encode(m: &Msg) -> Option<Vec<u8>> {
     let mut w: Vec<u8> = vec![];
-    match m {
-        Msg::Req(..) => tcp::send_request(&mut w, &to_request(m).unwrap()).unwrap(),
-        Msg::Resp(..) => tcp::send_response(&mut w, &to_response(m).unwrap()).unwrap(),
+    let r = match m {
+        Msg::Req(..) => tcp::send_request(&mut w, &to_request(m).unwrap()),
+        Msg::Resp(..) => tcp::send_response(&mut w, &to_response(m).unwrap()),
+    };
+    match r {
+        Ok(()) => Some(w),
+        Err(TcpError::MessageTooLarge(_)) => None,
+        Err(e) => panic!("encoding into a Vec failed: {e}"),
     }
-    w
+}
+
+fn payload_len(m: &Msg) -> usize {
+    match m {
+        Msg::Req(..) => to_request(m).unwrap().to_bytes().len(),
+        Msg::Resp(..) => to_response(m).unwrap().to_bytes().len(),
+    }
 }
 
 fn err_class(e: &TcpError) -> &'static str {
@@ -315,17 +328,34 @@ pub fn run_case(case: &WireReplay, idx: u64) -> RunResult {
         match op {
             WireOp::RoundTrip { msgs, pipe_seed, eintr, frag } => {
                 let mut pipe = SimPipe::new(*pipe_seed, *eintr, *frag);
-                for m in msgs {
+                let mut oversize = vec![false; msgs.len()];
+                for (k, m) in msgs.iter().enumerate() {
+                    let before = pipe.buf.len();
                     let r = match m {
                         Msg::Req(..) => tcp::send_request(&mut pipe, &to_request(m).unwrap()),
                         Msg::Resp(..) => tcp::send_response(&mut pipe, &to_response(m).unwrap()),
                     };
+                    if payload_len(m) > tcp::MAX_MESSAGE_SIZE {
+                        // over the cap: the sender must refuse it and put nothing on the stream
+                        bump("oversize_refused_by_sender", 1);
+                        oversize[k] = true;
+                        match r {
+                            Err(TcpError::MessageTooLarge(_)) if pipe.buf.len() == before => continue,
+                            other => {
+                                viol = Some(Violation { oracle: "O-wire".into(), event: i, detail: format!("a message of {} payload bytes (over the cap) was not cleanly refused: {:?}, {} bytes written", payload_len(m), other.map_err(|e| e.to_string()), pipe.buf.len() - before) });
+                                break 'ops;
+                            }
+                        }
+                    }
                     if let Err(e) = r {
                         viol = Some(Violation { oracle: "O-wire".into(), event: i, detail: format!("sending a valid message failed: {e}") });
                         break 'ops;
                     }
                 }
-                for m in msgs {
+                for (k, m) in msgs.iter().enumerate() {
+                    if oversize[k] {
+                        continue;
+                    }
                     bump("messages_round_tripped", 1);
                     match m {
                         Msg::Req(..) => {
@@ -369,7 +399,10 @@ pub fn run_case(case: &WireReplay, idx: u64) -> RunResult {
                 util::fnv(&mut fp, format!("rt {} {}", msgs.len(), pipe.stats.get("reads").copied().unwrap_or(0)).as_bytes());
             }
             WireOp::Truncate { msg, keep_permille, pipe_seed } => {
-                let bytes = encode(msg);
+                let Some(bytes) = encode(msg) else {
+                    bump("oversize_skipped", 1);
+                    continue;
+                };
                 let keep = (bytes.len() as u64 * keep_permille / 1000) as usize;
                 let keep = keep.min(bytes.len().saturating_sub(1));
                 let mut pipe = SimPipe::new(*pipe_seed, 0, 2);
@@ -441,7 +474,10 @@ pub fn run_case(case: &WireReplay, idx: u64) -> RunResult {
                 util::fnv(&mut fp, format!("bd {delta}").as_bytes());
             }
             WireOp::Mangle { msg, bad, cut, pipe_seed } => {
-                let bytes = encode(msg);
+                let Some(bytes) = encode(msg) else {
+                    bump("oversize_skipped", 1);
+                    continue;
+                };
                 let mut body = bytes[4..].to_vec();
                 for (pos, val) in bad {
                     if body.len() > 2 {
@@ -471,7 +507,10 @@ pub fn run_case(case: &WireReplay, idx: u64) -> RunResult {
                 util::fnv(&mut fp, b"mg");
             }
             WireOp::Mutate { msg, flips, pipe_seed } => {
-                let mut bytes = encode(msg);
+                let Some(mut bytes) = encode(msg) else {
+                    bump("oversize_skipped", 1);
+                    continue;
+                };
                 for (pos, val) in flips {
                     // bias towards the header (length prefix, version, command, counts)
                     let p = if pos % 3 != 0 { (*pos as usize / 3) % bytes.len().min(24) } else { (*pos as usize) % bytes.len() };
